@@ -97,6 +97,8 @@ def find_invariant(I, env, ordinal):
     fv = env.func
     if fv is None:
         return None, None
+    if getattr(I, "root_fv", None) is fv and I.root_contract is not None:
+        return I.root_contract.invariants.get(ordinal), I.root_contract
     key = I.contract_key(fv)
     ctr = I.contracts.get(key)
     if ctr is None:
